@@ -75,7 +75,7 @@ def strip_float(t):
     return t
 
 
-def tree_family(lv: Leaves) -> list:
+def tree_family(lv: Leaves, deep: bool = False) -> list:
     L, Tm, M = Dim.of(length=1), Dim.of(time=1), Dim.of(mass=1)
     a, b, c, m_ = lv.quantity("a", L), lv.quantity("b", L), lv.quantity("c", Tm), lv.quantity("m", M)
     z, k, x = lv.quantity("z", Tm, zero=True), lv.prefix("k"), lv.free("x")
@@ -125,13 +125,19 @@ def tree_family(lv: Leaves) -> list:
         add(f"Pow(m, {n1})", Node("Pow", [m_, t1]))
         add(f"Abs({n1})", Node("Abs", [t1]))
         add(f"exp({n1})", Node("Function", [t1], name="exp"))
+    if deep:
+        # thorough: compound x compound at depth three, every sum-like and product node kind
+        for (n1, t1), (n2, t2) in itertools.product(compound, repeat=2):
+            for cls in ("Mul", "Add", "Min", "Max"):
+                add(f"{cls}({n1}, {n2})", Node(cls, [t1, t2]))
+            add(f"Pow({n1}, {n2})", Node("Pow", [t1, t2]))
     return out
 
 
 def _collector(run: Run) -> None:
     m = run.src.need(CQ)
     lv = Leaves()
-    fam = tree_family(lv)
+    fam = tree_family(lv, run.tier == "thorough")
     run.require(len(fam) >= 400, "tree family shrank")
     reported = set()
     for label, tree in fam:
